@@ -386,13 +386,13 @@ Fixpoint pa_has_case (p : pa_hpred) : bool :=
   | PaHCase _ _ | PaHCaseCmp _ _ _ _ => true
   end.
 
-(* applyHavingWithCaseExpression looks at the Go type of the CASE's result: float64 keeps the row iff
-   > 0, string iff non-empty, NULL drops it, and "other types, non-nil is considered true". Aggregates
-   and arithmetic are float64; a selected result that is literally a numeric GROUP BY column carries
-   the input row's own value - a Go int when the rows carry ints, as the harness sends them - and such a
-   row is kept whatever the number is (finding F10j). *)
-Definition pa_int_typed (e : pa_hexp) : bool :=
-  match e with PaHCol (PaGroup _) => true | _ => false end.
+(* applyHavingWithCaseExpression looks at the Go type of the CASE's result: a number of any Go numeric type
+   (float64 from aggregates and arithmetic, the input row's own int for a result that is literally a numeric
+   GROUP BY column) keeps the row iff it is > 0, a string iff non-empty, a bool iff true, NULL drops it.
+   (Before the repair of finding F10j an int-typed result kept the row whatever the number was; pa_int_typed
+   marked those results. No result is treated apart any more.) *)
+Definition pa_int_typed (e : pa_hexp) : bool := false.
+Arguments pa_int_typed : simpl never.
 Definition pa_case_keep (ops : list pa_cmpop) (es : list pa_hexp) (r : pa_row) : bool :=
   let vs := map (fun e => pa_heval e r) es in
   match pa_case_sel ops vs (combine es vs) with
@@ -402,8 +402,7 @@ Definition pa_case_keep (ops : list pa_cmpop) (es : list pa_hexp) (r : pa_row) :
 
 (* applyHavingFilter routes on "the HAVING text contains CASE":
      no CASE             applyHavingWithCondition (expr-lang): the value of the condition;
-     CASE ... END        applyHavingWithCaseExpression, expr.NewExpression parses the text: the value
-                         (pa_case_keep: but for a bare integer-typed result);
+     CASE ... END        applyHavingWithCaseExpression, expr.NewExpression parses the text: the value;
      CASE ... END o z    the custom parser of expr.NewExpression fails, the expr-lang fallback returns an
                          error for every row and the row is skipped: every group is dropped (finding F10h);
      AND / OR with CASE  the parser has rewritten AND / OR to && / ||, expr.NewExpression rejects the
